@@ -530,6 +530,13 @@ func (c *Ctx) loopHead(fr *Frame, li *loopInfo, b *ssa.BasicBlock, st *State, re
 		c.loopFrameHavoc(c.contract, paramNames(fr.fn), c.entryArgs, before, st, reach, pos, li.ordinal, loopAllocKeys(fr.fn, li.blocks))
 	}
 	// 3. assume invariants
+	if fr.isRoot && li.ordinal >= 0 {
+		// the state at the head of the current iteration: `athead(N, e)` in the invariants of loops nested inside loop N
+		if c.loopHeadEnv == nil {
+			c.loopHeadEnv = map[int]*CEnv{}
+		}
+		c.loopHeadEnv[li.ordinal] = c.contractEnvLocal(fr, st.clone())
+	}
 	env = c.contractEnvLocal(fr, st)
 	if spec != nil {
 		for _, inv := range spec.Invs {
